@@ -22,14 +22,8 @@ What is NOT mirrored statement by statement (abstracted to exactly the facts the
     parameters/functions of the same kind.
 -/
 import TonVerif.Model.Cell
+import TonVerif.Model.PCell
 namespace TonVerif.Model
-
-/-- a constructed `Cell` object: cached values and child objects -/
-inductive PCell where
-  | mk (info : CellInfo) (refs : List PCell)
-
-def PCell.info : PCell → CellInfo | .mk i _ => i
-def PCell.refs : PCell → List PCell | .mk _ r => r
 
 mutual
   /-- build the objects of a tree bottom-up (`none` = some constructor raises) -/
@@ -45,9 +39,6 @@ mutual
       let ps ← PCell.ofCells H cs
       pure (p :: ps)
 end
-
-/-- `cell.data` (`_data_bytes`) -/
-def PCell.data (c : PCell) : Bytes := dataBytes c.info.bits
 
 /-- `check_proof(cell, hash_)`: `true` = returns, `false` = raises. -/
 def checkProof (c : PCell) (h : Bytes) : Bool :=
